@@ -15,6 +15,7 @@ import (
 	"github.com/dave/dst/decorator"
 	"github.com/dave/dst/decorator/resolver/goast"
 	"github.com/dave/dst/decorator/resolver/guess"
+	"github.com/dave/dst/verifhook"
 
 	"verif/internal/corpus"
 	"verif/internal/fw"
@@ -115,10 +116,25 @@ func c12Check(c *fw.Ctx, label, cfg string, r *decorator.Restorer, df *dst.File,
 	fset.Iterate(func(f *token.File) bool { before[f] = true; return true })
 	var rf *ast.File
 	var err error
-	if sig, detail := fw.Try(func() { rf, err = r.RestoreFile(df) }); sig != "" {
+	// hook: the restorer's cursor as seen by consecutive decoration / spacing events
+	var cursors []int
+	verifhook.Set(&verifhook.Handler{
+		Dec:   func(nodeType, point, text string, cursor, cnl int) { cursors = append(cursors, cursor) },
+		Space: func(nodeType, position string, space, newlines, cursor int) { cursors = append(cursors, cursor) },
+	})
+	sig, detail := fw.Try(func() { rf, err = r.RestoreFile(df) })
+	verifhook.Set(nil)
+	if sig != "" {
 		c.Violate("restore-panic", sig, label+" ["+cfg+"]\n"+detail, src)
 		return 0
 	}
+	for i := 1; i < len(cursors); i++ {
+		if cursors[i] < cursors[i-1] {
+			viol("cursor-went-backwards", "cursor-went-backwards", fmt.Sprintf("hook event #%d sees the cursor at %d after %d", i, cursors[i], cursors[i-1]))
+			break
+		}
+	}
+	c.Count("hook_cursor_events", int64(len(cursors)))
 	if err != nil {
 		c.Count("inconclusive_restore_error", 1)
 		return 0
@@ -470,11 +486,21 @@ func runC12(c *fw.Ctx) {
 	files := corpus.Sample(c.Rand("files"), c.Pick(160, 4000))
 	var shared *token.FileSet
 	sharedN := 0
+	zoo := layoutZoo()
+	for k := range zoo {
+		files = append(files, "zoo:"+k)
+	}
+	sort.Strings(files)
 	for i, p := range files {
 		if !c.Mine(i) {
 			continue
 		}
-		src := readFile(p)
+		var src []byte
+		if strings.HasPrefix(p, "zoo:") {
+			src = []byte(zoo[strings.TrimPrefix(p, "zoo:")])
+		} else {
+			src = readFile(p)
+		}
 		if src == nil || len(src) > 150000 {
 			continue
 		}
